@@ -116,7 +116,9 @@ def describe(I, case, li, lm=None, **kw):
 
 
 def classify_hang(I, case):
-    """D1: is some sub-problem reachable from the root a member of its own cut-set (pooled, long arcs)?"""
+    """D1: is some sub-problem reachable from the root a member of its own cut-set (pooled, long arcs) ACCORDING TO THE MODEL of the
+    current code? The known finding is keyed on the model (a faithful transliteration of the unchanged pooled.rs) exhibiting it on this very
+    instance: a change to the code that makes further sub-problems re-enter their own cut-set is NOT covered by the known finding."""
     if not I.notimp: return False
     t = case.split()
     flv, width = int(t[4]), int(t[7])
@@ -131,8 +133,9 @@ def classify_hang(I, case):
         ml = "M 2 1 %d %d 0 0 0 %d %d 1 %d %d %s" % (width, IMIN, k, v, b, len(path), p)
         path_f = workfile("classify.txt")
         open(path_f, "w").write(I.line() + "\n" + ml + "\n")
-        out, _ = run_impl("mdd", path_f)
-        f = parse_fields(out[0]) if out else {}
+        out = run_model("mdd", path_f)
+        from check_mdd import split_alts
+        f = parse_fields(split_alts(out[0])[0]) if out else {}
         for c in parse_cutset(f.get("CS")):
             if c["depth"] <= k: return True
             if len(c["state"]) == 1: todo.append((c["depth"], c["state"][0], c["value"], c["path"]))
